@@ -6,7 +6,7 @@ written loop by loop after the C++.
 * the private vectors `edgemark(nnz,1)` (`nnz = Sp[n]`), `coloring(n)`, `weight(n)`, `D(n,0)`, `Dlist(n,0)` and the array
   `c_dep_cache = new int[n]` are arrays accessed through `rd`/`wr`;
 * `colorflag == 1`: the weights come from the checked model of `vertex_coloring_mis` and
-  `*std::max_element(coloring.begin(), coloring.end())` (which reads `coloring[0]` also for `n = 0`);
+  `*std::max_element(coloring.begin(), coloring.end())` (the kernel returns at once for `n = 0`);
   otherwise `weight[i] = double(rand())/RAND_MAX` after `srand(2448422)`: the sequence is a parameter `rnd` of the model
   (not memory of the caller: read with `getD`), the check replays the C library generator;
 * `while(unassigned > 0)` runs on fuel; `none` = fuel exhausted.
@@ -184,6 +184,8 @@ def cjWhile (o : CjOps α) (n : Nat) (sp sj tp tj : Array Int) : Nat → Ck (CJ 
 `weight(n)` is initialised with -/
 def cljp (o : CjOps α) (z : α) (n : Nat) (sp sj tp tj : Array Int) (spl : Array Int) (colorflag : Int) (rnd : Array α)
     (fuel : Nat) : Option (Ck (Array Int)) :=
+  -- `if(n == 0) return;`
+  if n = 0 then some (pure spl) else
   let init : Ck (CJ α) := do
     let nnz ← rd sp (n : Int)
     let spl ← fillN n 2 spl
